@@ -158,6 +158,13 @@ class Lifecycle:
         argument reachable from self)."""
         out: list[AttrWrite] = []
         for f, via in self.self_closure(entry, cls):
+            # attribute-level write sets are only complete when attributes are
+            # written by name: reflection inside the analysed closure is refused
+            for n in own_nodes(f.node):
+                if isinstance(n, ast.Call) and isinstance(n.func, ast.Name) and n.func.id in ("setattr", "delattr", "exec", "eval"):
+                    raise AnalysisError(f"{f.loc(n)}: reflection ({n.func.id}) defeats attribute-level effect analysis")
+                if isinstance(n, ast.Attribute) and n.attr == "__dict__" and isinstance(n.ctx, ast.Store):
+                    raise AnalysisError(f"{f.loc(n)}: __dict__ store defeats attribute-level effect analysis")
             if not f.params:
                 continue
             selfname = f.params[0]
